@@ -389,7 +389,7 @@ def _mc_wakes_consumers(e):
     return wrap_bool(tm.mk_bool(bool(ok) and len(marks) == len(sets)))
 
 
-@contract("stepup/core/step.py::Step.mark_completed", props=["C10", "C03", "C04", "C09"])
+@contract("stepup/core/step.py::Step.mark_completed", props=["C10", "C03", "C04", "C09", "C02", "C05"])
 class mark_completed:
     args = dict(self=_mc_step, new_hash=ty.Opt(ty.Opaque("StepHash")), wants_defer=ty.Bool)
     events = {"file.set_state": _mc_file_transition, "set_state": _mc_step_transition}
